@@ -3,6 +3,7 @@ package main
 import (
 	"encoding/json"
 	"fmt"
+	"net/url"
 	"os"
 	"path/filepath"
 	"sort"
@@ -26,21 +27,56 @@ import (
 //	    methods directly) -> parse -> json.Marshal                       (OpenAPI 3 only)
 //	ji  input converted to YAML text -> parse (YAML reader) -> json.Marshal
 //
-// "parse" is openapi3.NewLoader().LoadFromData for OpenAPI 3 and json.Unmarshal / yaml.Unmarshal
-// into openapi2.T for OpenAPI 2 (openapi2 has no loader).  Every result is projected back to
+// "parse" is Loader.LoadFromData for OpenAPI 3 and json.Unmarshal / yaml.Unmarshal into openapi2.T
+// for OpenAPI 2 (openapi2 has no loader).  The OpenAPI 3 loader allows external references and
+// reads them through ReadFromURIFunc from an in-memory table that the case itself carries ("ext":
+// resource name -> document, built by TLC: ext/<Kind>.json = a bare object of the kind,
+// ext/doc.json = a document with one target per collection); nothing touches the file system.
+// LoadFromData has no base location, so a relative reference reaches the reader unchanged.  Every result is projected back to
 // tagged JSON and logged next to the input as realised; TLC (spec/Trace_C03.tla) judges.
 
 type c03Case struct {
 	D   any         `json:"d"`
 	Ver json.Number `json:"ver"`
 	Doc any         `json:"doc"`
+	Ext any         `json:"ext"` // optional: sequence of {name, doc}: the external resources
+}
+
+// c03Table renders the case's external resources as JSON text, keyed by resource name.
+func c03Table(ext any) map[string][]byte {
+	table := map[string][]byte{}
+	for _, e := range asSlice(ext) {
+		m := e.(map[string]any)
+		table[m["name"].(string)] = []byte(c03Text(m["doc"]))
+	}
+	return table
+}
+
+func c03ExtEcho(ext any) any {
+	if s := asSlice(ext); len(s) != 0 {
+		return s
+	}
+	return []any{}
+}
+
+// c03Loader: a fresh loader that resolves external references from the table only.
+func c03Loader(table map[string][]byte) *openapi3.Loader {
+	loader := openapi3.NewLoader()
+	loader.IsExternalRefsAllowed = true
+	loader.ReadFromURIFunc = func(_ *openapi3.Loader, location *url.URL) ([]byte, error) {
+		if data, ok := table[location.String()]; ok {
+			return data, nil
+		}
+		return nil, fmt.Errorf("harness: no external resource %q", location.String())
+	}
+	return loader
 }
 
 func c03Run(c *Case) []any {
 	var tc c03Case
 	c.Decode(&tc)
 	ver := asInt(tc.Ver)
-	line := map[string]any{"case": c.Idx, "d": tc.D, "ver": ver, "c": tc.Doc}
+	line := map[string]any{"case": c.Idx, "d": tc.D, "ver": ver, "c": tc.Doc, "ext": c03ExtEcho(tc.Ext)}
 	text := c03Text(tc.Doc)
 	in, ok := c03Project([]byte(text))
 	if !ok {
@@ -48,7 +84,7 @@ func c03Run(c *Case) []any {
 	}
 	line["in"] = in
 	if ver == 3 {
-		line["obs"] = c03Trips3([]byte(text))
+		line["obs"] = c03Trips3([]byte(text), c03Table(tc.Ext))
 	} else {
 		line["obs"] = c03Trips2([]byte(text))
 	}
@@ -61,7 +97,7 @@ func c03Abnormal(c *Case, kind string) []any {
 	text := c03Text(tc.Doc)
 	in, _ := c03Project([]byte(text))
 	bad := T{"ok": false, "err": kind}
-	return []any{map[string]any{"case": c.Idx, "d": tc.D, "ver": asInt(tc.Ver), "c": tc.Doc, "in": in,
+	return []any{map[string]any{"case": c.Idx, "d": tc.D, "ver": asInt(tc.Ver), "c": tc.Doc, "in": in, "ext": c03ExtEcho(tc.Ext),
 		"obs": T{"j1": bad, "j2": bad, "ja": bad, "ji": bad}}}
 }
 
@@ -92,8 +128,8 @@ func c03Clip(s string) string {
 
 type c03Fail struct{ msg string }
 
-func c03Trips3(text []byte) any {
-	load := func(data []byte) (*openapi3.T, error) { return openapi3.NewLoader().LoadFromData(data) }
+func c03Trips3(text []byte, table map[string][]byte) any {
+	load := func(data []byte) (*openapi3.T, error) { return c03Loader(table).LoadFromData(data) }
 	obs := T{}
 	var doc1 *openapi3.T
 	var b1 []byte
